@@ -111,8 +111,25 @@ Fixpoint paren_free_param (fuel : nat) (in_struct : bool) (ts : list token) : bo
       end
   end%char.
 
+(* The grammar spells the integer types as "u" (DIGIT | DIGIT DIGIT) with blanks ignored BETWEEN the characters, so `u8 2` is the type
+   u82 and `u 8` is u8. The model's lexer works on white-space separated tokens and does not re-join them: such token pairs (they
+   only arise from token-level mutations, e.g. the deleted comma of `[u8, 2]`) are outside its domain. *)
+Definition split_type_head (s : string) : bool :=
+  match s with
+  | String c EmptyString => (Ascii.eqb c "u" || Ascii.eqb c "i")%char
+  | String c (String d EmptyString) => ((Ascii.eqb c "u" || Ascii.eqb c "i") && is_digit d)%char
+  | _ => false
+  end.
+
+Fixpoint split_type_name (ts : list token) : bool :=
+  match ts with
+  | TId s :: ((TInt _ | TFloat _) :: _) as ts' => split_type_head s || split_type_name ts'
+  | _ :: ts' => split_type_name ts'
+  | [] => false
+  end.
+
 Definition file_out_of_domain (src : string) : bool :=
-  match lex src with Some ts => paren_free_param (S (length ts)) false ts | None => false end.
+  match lex src with Some ts => paren_free_param (S (length ts)) false ts || split_type_name ts | None => false end.
 
 Inductive ofront :=
 | FOk (f : front)                      (* get_fcp returned Ok *)
